@@ -4,7 +4,7 @@ package props
 //
 // Identity PWM map, so the device value after a cycle is the request r_t. With m0 the fan's
 // minimum when regulation starts and k_t the number of raises fan2go reports up to cycle t:
-//   r_t >= min(m0 + k_t, max)            (floor, permanent raise)
+//   r_t >= m0 + k_t                      (floor, permanent raise)
 //   k_t > k_{t-1}  =>  r_t > r_{t-1}      (strictly above the request at which the fan stalled)
 //   k never decreases; fan.GetMinPwm() never drops below m0.
 
@@ -92,10 +92,10 @@ func runC02(t *testing.T, sc c02Scenario) verdict {
 		if k < prevK {
 			add("raise-counter-decreased", fmt.Sprintf("cycle %d: IncreasedMinPwmCount went from %d to %d", i, prevK, k))
 		}
+		// raised minimum = initial minimum + number of raises. It can never exceed the maximum in a
+		// correct controller (a raise only happens below max), so it is not capped here: a request
+		// below a minimum that was pushed past the maximum is a violation of its own.
 		floor := m0 + k
-		if floor > o.FanMax {
-			floor = o.FanMax
-		}
 		if r < floor {
 			add("request-below-floor", fmt.Sprintf("cycle %d: request %d below initial minimum %d + %d raise(s) (requests so far %v)", i, r, m0, k, tail(trace, 8)))
 		}
